@@ -6,7 +6,7 @@ from checks.common import Report
 from checks.kani_check import run_kani_property, VERIF
 
 rep = Report("C13")
-harness = open(os.path.join(VERIF, "kani", "executor_harness.rs")).read()
+harness = "".join(open(os.path.join(VERIF, "kani", f)).read() for f in ("executor_preamble.rs", "c13_harness.rs")) + "}\n"
 run_kani_property(rep, "quiver-core", {"src/executor.rs": harness}, [
     {"name": "c13_ref_injective", "what": "refs from (worker, counter) pairs are equal iff same minting; counter strictly increases",
      "need_cover": ["equal refs reachable (same minting)", "distinct refs reachable"]},
@@ -19,4 +19,4 @@ rep.assumptions = [
 ]
 sys.exit(rep.finish(
     rule="one obligation = one Kani harness over all values of its symbolic inputs; states = harnesses, transitions = CBMC property checks",
-    trusted=["Kani 0.68 / CBMC 6.11 (CaDiCaL)", "the appended harness module kani/executor_harness.rs"]))
+    trusted=["Kani 0.68 / CBMC 6.11 (CaDiCaL)", "the appended harness modules kani/executor_preamble.rs + kani/c13_harness.rs"]))
